@@ -173,3 +173,103 @@ PROPS["C18"] = dict(
     claimed=False,
     proved="", not_covered="", assumptions=[], abstractions=EXEC_ABS, extra=[scan_worker_spawn_sites],
 )
+
+PROPS["C03"] = dict(
+    proved="routing (part B): submit allocates a fresh id (strictly below the counter, not yet pending), stores exactly the caller's fn/args/kwargs with the returned "
+           "future, queues the id, wakes the manager and tops the pool up, keeping the representation invariants also when a spawn fails; dispatch builds the call item "
+           "from the work item of its own id, only after the future was marked running, never for a cancelled future, never when the queue is full, and records the id as "
+           "running before the feeder can see the item; process_result_item resolves exactly the future of the result's id, once, with the value or exception sent, "
+           "touching no other future; the worker answers each call item exactly once with the item's own id.",
+    not_covered="at-most-once execution across worker death, respawn, resize and concurrent submitters (schedules, OS); part A (map == builtin map) is a separate set of "
+                "obligations, see the evidence of this run.",
+    assumptions=["A-atomic", "A-alias", "A-pids", "A-user"],
+    abstractions=EXEC_ABS,
+)
+
+
+# ----------------------------------------------------------------------
+# C11: parse lemma for names containing ':' (over the uninterpreted split/join, from three algebraic axioms)
+def lemma_parse_colon_names(repo, tier, seed):
+    import time
+    import z3
+    t0 = time.time()
+    Str = z3.StringSort()
+    Sq = z3.SeqSort(Str)
+    split = z3.Function("py_split", Str, Str, Sq)
+    join = z3.Function("py_join", Str, Sq, Str)
+    colon = z3.StringVal(":")
+    cmd, name, rtype = z3.Strings("cmd name rtype")
+    # L stands for cmd+":"+name+":"+rtype and T for name+":"+rtype: the axioms are instantiated at these terms on the
+    # Python side, so that the solver sees sequence equalities only (no string concatenation under the uninterpreted split)
+    L, Tl = z3.Strings("line tail")
+    A1a = split(L, colon) == z3.Concat(split(cmd, colon), split(Tl, colon))          # split(a+":"+b) == split(a) ++ split(b)
+    A1b = split(Tl, colon) == z3.Concat(split(name, colon), split(rtype, colon))
+    A2c = z3.Implies(z3.Not(z3.Contains(cmd, colon)), split(cmd, colon) == z3.Unit(cmd))       # split(x) == [x] when ':' not in x
+    A2r = z3.Implies(z3.Not(z3.Contains(rtype, colon)), split(rtype, colon) == z3.Unit(rtype))
+    A3 = join(colon, split(name, colon)) == name                                      # ":".join(split(x)) == x
+    Lq = z3.Length(split(name, colon)) >= 1
+    S_ = split(L, colon)
+    n = z3.Length(S_)
+    parsed_cmd = S_[0]
+    parsed_rtype = S_[n - 1]
+    parsed_name = join(colon, z3.SubSeq(S_, 1, n - 2))
+    hyp = [A1a, A1b, A2c, A2r, A3, Lq, z3.Not(z3.Contains(cmd, colon)), z3.Not(z3.Contains(rtype, colon))]
+    goals = {
+        "fields": z3.And(parsed_cmd == cmd, parsed_rtype == rtype, n >= 3),
+        "middle": z3.SubSeq(S_, 1, n - 2) == split(name, colon),
+        "name": z3.Implies(z3.SubSeq(S_, 1, n - 2) == split(name, colon), parsed_name == name),
+    }
+    out = []
+    for gname, g in goals.items():
+        s = z3.Solver()
+        s.set("timeout", 20000)
+        s.add(hyp)
+        s.add(z3.Not(g))
+        r = s.check()
+        backend = "z3-inproc"
+        if r == z3.unknown:
+            from pyvc import solve
+            res, raw = solve._external(["/usr/bin/cvc5", "--strings-exp", "--tlimit=20000"], s.to_smt2())
+            backend = "cvc5"
+            status = {"unsat": "unsat", "sat": "sat"}.get(res, "unknown")
+        else:
+            status = "unsat" if r == z3.unsat else "sat"
+        out.append({"name": f"loky.backend.resource_tracker:<lemma>:parse/colon-names/{gname}", "status": status, "backend": backend,
+                    "secs": time.time() - t0, "kind": "lemma", "function": "loky.backend.resource_tracker:main",
+                    "path": ["split(a+':'+b)=split(a)++split(b); split(x)=[x] if ':' not in x; ':'.join(split(x))=x"], "model": ""})
+    # bounded cross-check of the three axioms against CPython (exhaustive, alphabet {':','a',' '}, length <= 6): labelled bounded
+    import itertools
+    n_checked = 0
+    ok = True
+    for ln in range(0, 5):
+        for a in itertools.product(":a ", repeat=ln):
+            x = "".join(a)
+            n_checked += 1
+            ok = ok and ":".join(x.split(":")) == x and (":" in x or x.split(":") == [x])
+            for lb in range(0, 3):
+                for b in itertools.product(":a", repeat=lb):
+                    y = "".join(b)
+                    ok = ok and (x + ":" + y).split(":") == x.split(":") + y.split(":")
+    out.append({"name": "loky.backend.resource_tracker:<axioms>:split-join-axioms-vs-cpython", "status": "bounded", "kind": "bounded",
+                "bound": f"all strings over {{':','a',' '}} up to length 4 (x) and 2 (y): {n_checked} x-values", "holds": ok,
+                "function": "", "path": [], "secs": 0.0})
+    if not ok:
+        out.append({"name": "loky.backend.resource_tracker:<axioms>:split-join-axioms-vs-cpython/refuted", "status": "sat", "kind": "lemma",
+                    "function": "", "path": ["an axiom of the parse lemma is false in CPython"], "secs": 0.0, "model": ""})
+    return out
+
+
+PROPS["C11"] = dict(
+    proved="the tracker's request loop implements the reference-count law exactly, for an arbitrary request stream (loop invariant + one step obligation per "
+           "request kind over an arbitrary well-formed registry): REGISTER +1, UNREGISTER forgets, MAYBE_UNLINK -1 and destroys exactly once exactly at zero, every "
+           "other key of every type unchanged (frame as part of each step), invalid requests (unknown command / type, zero count, undecodable, fewer than three "
+           "fields) reported once and skipped, nothing leaves the loop but end of file; the three per-type tables are distinct objects (proved, not assumed); the "
+           "end-of-life sweep destroys every still-registered name exactly once, every type once, folders last, and a failing cleanup does not stop the rest; "
+           "parse lemma for names containing ':'.",
+    not_covered="atomicity/interleaving of writes from several client processes (A-kernel: each line arrives whole); warnings turned into errors (A-warn); "
+                "the client side (_send) is the CPython class.",
+    assumptions=["A-warn", "A-kernel", "A-posix"],
+    abstractions=COMMON_ABS + ["str.strip / str.split / str.join / bytes.decode are uninterpreted (py_str_strip, py_split, py_join, py_decodable_ascii); the parse lemma "
+                               "relates them through three algebraic axioms, cross-checked bounded against CPython"],
+    extra=[lemma_parse_colon_names],
+)
